@@ -147,6 +147,21 @@ func trackErr(info *types.Info, flow *FlowGraph, def ast.Node, obj types.Object,
 		return nil // unreachable code
 	}
 	tracked := map[types.Object]bool{obj: true}
+	// repo convention for (bool, error) results: the bool is false whenever the error is non-nil
+	coBool := map[types.Object]bool{}
+	switch d := def.(type) {
+	case *ast.AssignStmt:
+		if len(d.Rhs) == 1 {
+			for _, l := range d.Lhs {
+				if o := ObjOf(info, l); o != nil && o != obj {
+					if b, ok := o.Type().Underlying().(*types.Basic); ok && b.Kind() == types.Bool {
+						coBool[o] = true
+					}
+				}
+			}
+		}
+	}
+	keepFirst := false
 	isNamed := func(o types.Object) bool {
 		for _, n := range named {
 			if n == o {
@@ -196,11 +211,18 @@ func trackErr(info *types.Info, flow *FlowGraph, def ast.Node, obj types.Object,
 			}
 			if id, ok := last.(*ast.Ident); ok {
 				if v, isVar := info.Uses[id].(*types.Var); isVar && v.Parent() != v.Pkg().Scope() {
-					return knownNonNilAt(info, flow.Body, s, v), false
+					return KnownNonNilAt(info, flow.Body, s, v), false
 				}
 			}
 			return true, false
 		case *ast.AssignStmt:
+			if s != def {
+				for _, l := range s.Lhs {
+					if o := ObjOf(info, l); o != nil && coBool[o] {
+						delete(coBool, o)
+					}
+				}
+			}
 			// RHS mentions e?
 			rhsMentions := false
 			for _, r := range s.Rhs {
@@ -223,6 +245,9 @@ func trackErr(info *types.Info, flow *FlowGraph, def ast.Node, obj types.Object,
 						if _, isVar := o.(*types.Var); isVar && IsErrorType(o.Type()) {
 							tracked[o] = true
 							aliased = true
+							if isNamed(o) {
+								keepFirst = true // `if R == nil { R = e }`: the first error wins, by design
+							}
 						}
 					}
 				}
@@ -320,6 +345,9 @@ func trackErr(info *types.Info, flow *FlowGraph, def ast.Node, obj types.Object,
 					return TriOf(nonNilWhenTrue)
 				}
 			}
+			if o := ObjOf(info, e); o != nil && coBool[o] {
+				return False
+			}
 			return Unknown
 		})
 		switch t {
@@ -345,13 +373,17 @@ func trackErr(info *types.Info, flow *FlowGraph, def ast.Node, obj types.Object,
 		},
 		Edge: edge,
 		OnExit: func(ret *ast.ReturnStmt, b *cfg.Block) Action {
-			if ret == nil {
+			if ret == nil || len(ret.Results) == 0 {
+				// (go/cfg makes the implicit return at the end of a body explicit: a ReturnStmt without results)
 				// falling off the end of a function literal (e.g. a deferred closure) while the
 				// error sits in a named result of the enclosing function: it is what gets returned
 				for o := range tracked {
 					if isNamed(o) {
 						return Continue
 					}
+				}
+				if keepFirst || keepFirstIdiom(info, flow.Body, tracked, isNamed) {
+					return Continue
 				}
 			}
 			where := flow.Body.End()
@@ -370,9 +402,9 @@ func trackErr(info *types.Info, flow *FlowGraph, def ast.Node, obj types.Object,
 	return finding
 }
 
-// knownNonNilAt reports whether error variable v is known non-nil at statement at: at lies in the
+// KnownNonNilAt reports whether error variable v is known non-nil at statement at: at lies in the
 // body of an `if` whose condition implies v != nil (or in the else of one implying v == nil).
-func knownNonNilAt(info *types.Info, body *ast.BlockStmt, at ast.Node, v types.Object) bool {
+func KnownNonNilAt(info *types.Info, body *ast.BlockStmt, at ast.Node, v types.Object) bool {
 	res := false
 	ast.Inspect(body, func(n ast.Node) bool {
 		is, ok := n.(*ast.IfStmt)
@@ -406,4 +438,33 @@ func knownNonNilAt(info *types.Info, body *ast.BlockStmt, at ast.Node, v types.O
 		return true
 	})
 	return res
+}
+
+// keepFirstIdiom recognises `if R == nil { R = e }` (R a named error result of the enclosing
+// function, e a tracked error): the first error wins by design, so e is deliberately discarded on
+// the path where R is already set — and R, non-nil, is what the caller gets.
+func keepFirstIdiom(info *types.Info, body *ast.BlockStmt, tracked map[types.Object]bool, isNamed func(types.Object) bool) bool {
+	found := false
+	ast.Inspect(body, func(n ast.Node) bool {
+		is, ok := n.(*ast.IfStmt)
+		if !ok {
+			return true
+		}
+		for _, st := range is.Body.List {
+			as, ok := st.(*ast.AssignStmt)
+			if !ok || len(as.Lhs) != 1 || len(as.Rhs) != 1 {
+				continue
+			}
+			r := ObjOf(info, as.Lhs[0])
+			e := ObjOf(info, as.Rhs[0])
+			if r == nil || e == nil || !isNamed(r) || !tracked[e] {
+				continue
+			}
+			if t, nonNilWhenTrue := ErrNilTest(info, is.Cond, r); t && !nonNilWhenTrue {
+				found = true
+			}
+		}
+		return true
+	})
+	return found
 }
